@@ -2,8 +2,9 @@ package c18
 
 import (
 	"fmt"
-	"os"
 	"net"
+	"os"
+	"sort"
 	"sync"
 	"testing"
 	"time"
@@ -314,7 +315,7 @@ func s12() *sched.Scenario {
 			c := w.NewClient("c1")
 			var f flags
 			vsched.Go("client", func() {
-				c.Do(wire.Allocate, udp) // obtains a nonce ...
+				c.Do(wire.Allocate, udp)        // obtains a nonce ...
 				c.Do(wire.Refresh, lifetime(0)) // ... and leaves no allocation behind
 				vsched.Mark()
 				vsched.Go("closer", func() {
@@ -389,12 +390,16 @@ func s14() *sched.Scenario {
 
 // S15: the server is closed while a Connect of a TCP allocation is still dialling its peer (the dial takes 2 s);
 // the dial then succeeds and the handler goes on with an allocation that has been closed under it.
-func s15() *sched.Scenario { return s15dial("S15-server-close-during-a-slow-connect-dial", 2*time.Second) }
+func s15() *sched.Scenario {
+	return s15dial("S15-server-close-during-a-slow-connect-dial", 2*time.Second)
+}
 
 // S16: the same, but the dial completes at the very instant the server is closed, so that the handler's
 // registration of the new connection interleaves with every step of the teardown (the manager closing the
 // allocation, the relay listener's accept loop noticing it and deleting the allocation).
-func s16() *sched.Scenario { return s15dial("S16-connect-dial-completes-while-the-server-closes", time.Second) }
+func s16() *sched.Scenario {
+	return s15dial("S16-connect-dial-completes-while-the-server-closes", time.Second)
+}
 
 func s15dial(name string, dial time.Duration) *sched.Scenario {
 	o := opt
@@ -430,7 +435,16 @@ func scenarios() []*sched.Scenario {
 func TestC18Sched(t *testing.T) {
 	r := rep.New("C18")
 	defer r.Write()
-	for _, sc := range scenarios() {
+	scs := scenarios()
+	// the two scenarios with most schedules run last: an exceeded budget cuts into them, not into the small ones
+	sort.SliceStable(scs, func(i, j int) bool {
+		hv := func(n string) bool {
+			return n == "S12-server-close-vs-stream-allocate" || n == "S10-two-stream-clients"
+		}
+
+		return !hv(scs[i].Name) && hv(scs[j].Name)
+	})
+	for _, sc := range scs {
 		if only := os.Getenv("VERIF_SCENARIO"); only != "" && only != sc.Name {
 			continue
 		}
